@@ -5,7 +5,7 @@
    bytes the script has legitimately written). *)
 From Coq Require Import String.
 From OCI Require Export Base.Outcome Model.UploadMem.
-From OCI Require Export Model.UploadSpec.
+From OCI Require Export Model.UploadSpec Model.UploadXSpec.
 From OCI Require Import Proofs.RangeCodec Proofs.UploadLaw Proofs.Upload Proofs.UploadMem.
 
 Local Open Scope Z_scope.
@@ -198,6 +198,90 @@ Proof.
     eapply (unify_hop1_check _ _ (fun _ => true) _ _ _ _ _ eq_refl one_piece one_piece_concat); eauto.
 Qed.
 
+(* ------------------------------------------------------------------ extended scripts *)
+
+(* Scripts with transient faults and remembered upload ids (Model/UploadX.v).  The clauses
+   of Model/UploadXSpec.v are not (yet) backed by a theorem over all scripts: [x_model_agrees]
+   evaluates the checker on the MODEL's prediction of every case as well, so a case agrees
+   only if the model itself meets the specification on that input; [x_corr_sound] then
+   carries it over to the observation (the checker cannot tell agreeing observations apart). *)
+Record xcase := {
+  xc_stack : stack;
+  xc_repo : bytes;
+  xc_hash : alist bytes;
+  xc_ops : list xop;
+  xc_obs : list uobs;
+  xc_stored : list (bytes * list (option bytes))
+}.
+
+Section XRun.
+  Variable c : xcase.
+  Let hash := tbl_hash (xc_hash c).
+  Let mb := mem_backend hash (fun _ => true) (fun _ => true) (fun _ => true) (fun _ => None) (fun _ => None)
+                        {| immutable_tags := false |}.
+  Let h1 := hop1 hash (fun _ => true) (fun _ => true) (fun _ => true) (fun _ => None) (fun _ => None)
+                 {| immutable_tags := false |} one_piece.
+  Let xh1 := xhop1 hash (fun _ => true) (fun _ => true) (fun _ => true) (fun _ => None) (fun _ => None)
+                   {| immutable_tags := false |} one_piece.
+  Let xh2 := xhop2 hash (fun _ => true) (fun _ => true) (fun _ => true) (fun _ => None) (fun _ => None)
+                   {| immutable_tags := false |} one_piece.
+
+  Definition xdigests : list bytes := map fst (xc_stored c).
+  Definition xlook1 (st : state) : list (bytes * list (option bytes)) :=
+    map (fun d => (d, [mem_blob st (xc_repo c) d])) xdigests.
+  Definition xlook2 (st : state * state) : list (bytes * list (option bytes)) :=
+    map (fun d => (d, [mem_blob (fst st) (xc_repo c) d; mem_blob (snd st) (xc_repo c) d])) xdigests.
+
+  Definition x_model_run : list uobs * list (bytes * list (option bytes)) :=
+    match xc_stack c with
+    | SMem => let '(st, obs) := run_x mb (fun st _ => st) (xc_repo c) init None None (xc_ops c) in (obs, xlook1 st)
+    | SHop1 => let '(st, obs) := run_x xh1 set_plan (xc_repo c) (init, []) None None (xc_ops c) in (obs, xlook1 (fst st))
+    | SHop2 => let '(st, obs) := run_x xh2 set_plan (xc_repo c) (init, []) None None (xc_ops c) in (obs, xlook1 (fst st))
+    | SUnifyMem =>
+        let '(st, obs) := run_x (unify_backend mb mb) (fun st _ => st) (xc_repo c) (init, init) None None (xc_ops c) in
+        (obs, xlook2 st)
+    | SUnifyHop1 =>
+        let '(st, obs) := run_x (unify_backend h1 h1) (fun st _ => st) (xc_repo c) (init, init) None None (xc_ops c) in
+        (obs, xlook2 st)
+    end.
+End XRun.
+
+Definition x_model_agrees (c : xcase) : bool :=
+  let '(obs, stored) := x_model_run c in
+  list_eqb uobs_eqb (xc_obs c) obs && list_eqb stored_eqb (xc_stored c) stored
+  && xcheck (tbl_hash (xc_hash c)) (xc_ops c) (map norm obs) stored.
+
+Definition x_obs_ok (c : xcase) : bool :=
+  xcheck (tbl_hash (xc_hash c)) (xc_ops c) (map norm (xc_obs c)) (xc_stored c).
+
+Definition is_commit (o : xop) : bool := match o with XU (UCommit _) => true | _ => false end.
+Definition is_xfault (o : xop) : bool := match o with XFault _ => true | _ => false end.
+Definition x_nontrivial (c : xcase) : bool :=
+  existsb is_xfault (xc_ops c) || (2 <=? Z.of_nat (List.length (filter is_commit (xc_ops c)))).
+
+Lemma norm_agree a b : uobs_eqb a b = true -> norm a = norm b.
+Proof.
+  unfold uobs_eqb, norm. intros H. apply andb_true_iff in H as [H Hc]. apply andb_true_iff in H as [Hr Hs].
+  apply Z.eqb_eq in Hs, Hc. rewrite Hs, Hc. f_equal.
+  unfold ures_agree in Hr. apply orb_true_iff in Hr as [Hr|Hr].
+  - apply ures_eqb_eq in Hr. now rewrite Hr.
+  - destruct (uo_res a) as [n|co st|]; try discriminate. destruct (uo_res b) as [n'|cm st'|]; try discriminate.
+    destruct cm; try discriminate. apply andb_true_iff in Hr as [_ H2]. apply Z.eqb_eq in H2. now subst.
+Qed.
+
+Lemma map_norm_agree : forall obs obs', list_eqb uobs_eqb obs obs' = true -> map norm obs = map norm obs'.
+Proof.
+  induction obs as [|a obs IH]; intros [|b obs'] H; cbn in H; try discriminate; [reflexivity|].
+  apply andb_true_iff in H as [H1 H2]. cbn [map]. now rewrite (norm_agree _ _ H1), (IH _ H2).
+Qed.
+
+Lemma x_corr_sound c : x_model_agrees c = true -> x_obs_ok c = true.
+Proof.
+  unfold x_model_agrees, x_obs_ok. destruct (x_model_run c) as [obs stored]. intros H.
+  apply andb_true_iff in H as [H H3]. apply andb_true_iff in H as [H1 H2].
+  apply (list_eqb_eq _ stored_eqb_eq) in H2. rewrite H2, (map_norm_agree _ _ H1). exact H3.
+Qed.
+
 (* ------------------------------------------------------------------ codec cases *)
 
 (* what the harness saw chunkRange / parseRange return *)
@@ -212,7 +296,8 @@ Inductive case :=
   | KChunk (a b cl : Z) (res : cr_obs)
       (* chunkRange on Content-Range: RangeString(a, b), Content-Length: cl *)
   | KChunkRaw (cr : bytes) (cl : Z) (res : cr_obs)            (* chunkRange on any header *)
-  | KHttpRange (str : bytes) (res : hr_obs).                  (* ociserver.parseRange *)
+  | KHttpRange (str : bytes) (res : hr_obs)                   (* ociserver.parseRange *)
+  | KX (xc : xcase).                                          (* extended script: faults, remembered ids *)
 
 Definition zz_eqb (x y : Z * Z) : bool := (fst x =? fst y) && (snd x =? snd y).
 Definition ozz_eqb := option_eqb zz_eqb.
@@ -238,6 +323,7 @@ Definition model_agrees (c : case) : bool :=
   | KChunk a b cl res => cr_agree res (chunk_range (range_string a b) cl)
   | KChunkRaw cr cl res => cr_agree res (chunk_range cr cl)
   | KHttpRange str res => hr_agree res (parse_http_range str)
+  | KX xc => x_model_agrees xc
   end.
 
 (* the codec part of the specification: ParseRange inverts RangeString on every range
@@ -256,12 +342,14 @@ Definition obs_ok (c : case) : bool :=
              then match res with OCRErr _ => true | _ => false end
              else true
       else true
+  | KX xc => x_obs_ok xc
   | _ => true
   end.
 
 Definition nontrivial (c : case) : bool :=
   match c with
   | KScript sc => s_nontrivial sc
+  | KX xc => x_nontrivial xc
   | _ => true
   end.
 
@@ -277,8 +365,8 @@ Proof. destruct x, y; cbn; try discriminate; auto. intros H. apply zz_eqb_eq in 
 
 Lemma corr_sound c : model_agrees c = true -> obs_ok c = true.
 Proof.
-  destruct c as [sc|a b str parsed|str parsed|a b cl res|cr cl res|str res]; cbn [model_agrees obs_ok];
-    try reflexivity.
+  destruct c as [sc|a b str parsed|str parsed|a b cl res|cr cl res|str res|xc]; cbn [model_agrees obs_ok];
+    try reflexivity; [| | |apply x_corr_sound].
   - apply s_corr_sound.
   - intros H. apply andb_true_iff in H as [H1 H2]. apply beqb_eq in H1. subst str.
     apply ozz_eqb_eq in H2. subst parsed.
